@@ -4,6 +4,8 @@
 //! and a model `[[Sym; N]; N]`; after every step both real values, read through their public fields,
 //! must equal the model, and every extracted observable must equal the model's.
 
+pub mod edge;
+
 use num_traits::{One, Zero};
 use vek::mat::repr_c::column_major as cm;
 use vek::mat::repr_c::row_major as rm;
@@ -72,11 +74,11 @@ fn display_model<T: std::fmt::Display, const N: usize>(m: &[[T; N]; N]) -> Strin
     s
 }
 
-const N_OPS: usize = 24;
+const N_OPS: usize = 26;
 const OP_NAMES: [&str; N_OPS] = [
     "new", "index", "index_mut", "transposed", "transpose", "map", "map2", "apply", "apply2", "layout-swap", "resize", "row_array", "row_arrays",
     "col_array", "col_arrays", "col_array->from_row_array", "row_arrays->from_col_arrays", "diagonal", "with_diagonal", "broadcast_diagonal",
-    "map_rows/map_cols", "slices+gl", "mut-slices", "display+counts",
+    "map_rows/map_cols", "slices+gl", "mut-slices", "display+counts", "index-out-of-range", "identity/zero/One/Zero",
 ];
 
 macro_rules! same_size_step {
@@ -232,6 +234,8 @@ macro_rules! same_size_step {
                 22 => {
                     let k = t.below(N * N);
                     let x = fresh.next();
+                    check_eq!(cx, r.as_mut_row_slice().to_vec(), flat_rows(m), "as_mut_row_slice lists m[i][j] at i*n+j (and has n*n elements)");
+                    check_eq!(cx, c.as_mut_col_slice().to_vec(), flat_cols(m), "as_mut_col_slice lists m[i][j] at j*n+i (and has n*n elements)");
                     r.as_mut_row_slice()[k] = x;
                     m[k / N][k % N] = x;
                     // same abstract element in the column-major value lives at (k%N)*N + k/N
@@ -253,6 +257,44 @@ macro_rules! same_size_step {
                     };
                     check_eq!(cx, <rm::$Mat<Sym> as Default>::default().to_arr(), id, "row-major Default is identity");
                     check_eq!(cx, <cm::$Mat<Sym> as Default>::default().to_arr(), id, "col-major Default is identity");
+                }
+                24 => {
+                    // an index pair with at least one component outside 0..N: no element is (i,j), and the two
+                    // layouts must treat the access alike (read or write)
+                    let cand = edge::index_candidates(N);
+                    let small_out = |t: &mut Tape| N + t.below(N * N - N + 1); // N ..= N*N
+                    let (i, j) = match t.below(8) {
+                        0 | 1 | 2 => (t.below(N), small_out(t)),
+                        3 | 4 | 5 => (small_out(t), t.below(N)),
+                        6 => (small_out(t), small_out(t)),
+                        _ => {
+                            // one huge component (products with N may wrap), the other anything
+                            let h = cand[N * N + 1 + t.below(cand.len() - N * N - 1)];
+                            let o = cand[t.below(cand.len())];
+                            if t.bool() { (h, o) } else { (o, h) }
+                        }
+                    };
+                    cx.label(edge::oob_label(N, i, j));
+                    let write = t.bool();
+                    let x = fresh.next();
+                    edge::index_pair_case::<N, _, _>(cx, i, j, write, r, c, m, x)?;
+                }
+                25 => {
+                    let id: [[Sym; N]; N] = {
+                        let mut id = [[Sym::zero(); N]; N];
+                        for i in 0..N { id[i][i] = Sym::one(); }
+                        id
+                    };
+                    let z = [[Sym::zero(); N]; N];
+                    check_eq!(cx, rm::$Mat::<Sym>::identity().to_arr(), id, "row-major identity()");
+                    check_eq!(cx, cm::$Mat::<Sym>::identity().to_arr(), id, "col-major identity()");
+                    check_eq!(cx, <rm::$Mat<Sym> as One>::one().to_arr(), id, "row-major One::one()");
+                    check_eq!(cx, <cm::$Mat<Sym> as One>::one().to_arr(), id, "col-major One::one()");
+                    check_eq!(cx, rm::$Mat::<Sym>::zero().to_arr(), z, "row-major zero()");
+                    check_eq!(cx, cm::$Mat::<Sym>::zero().to_arr(), z, "col-major zero()");
+                    check_eq!(cx, <rm::$Mat<Sym> as Zero>::zero().to_arr(), z, "row-major Zero::zero()");
+                    check_eq!(cx, <cm::$Mat<Sym> as Zero>::zero().to_arr(), z, "col-major Zero::zero()");
+                    check_eq!(cx, (Zero::is_zero(&*r), Zero::is_zero(&*c)), (*m == z, *m == z), "Zero::is_zero, both layouts");
                 }
                 _ => {}
             }
@@ -415,8 +457,23 @@ pub fn property() -> Property {
     let checks = vec![
         Check {
             name: "programs-sym",
-            about: "random programs (0-12 steps over 24 operations: new, index, index_mut, transposed, transpose, map, map2, apply, apply2, layout conversion, size conversion, flat/nested row/col array round trips and cross pairs, diagonal, with_diagonal, broadcast_diagonal, map_rows/map_cols, slices + OpenGL transpose flag, mutable slices, Display/counts/Default) run side by side on a row-major and a column-major matrix of pairwise distinct opaque terms and on an array model",
+            about: "random programs (0-12 steps over 26 operations: new, index, index_mut, transposed, transpose, map, map2, apply, apply2, layout conversion, size conversion, flat/nested row/col array round trips and cross pairs, diagonal, with_diagonal, broadcast_diagonal, map_rows/map_cols, slices + OpenGL transpose flag, mutable slices (contents and length), Display/counts/Default, index pairs with a component out of range, identity/zero and the One/Zero trait impls) run side by side on a row-major and a column-major matrix of pairwise distinct opaque terms and on an array model",
             kind: Kind::Tape { len: 96, quick: 400_000, thorough: 8_000_000, f: programs },
+        },
+        Check {
+            name: "index-bounds",
+            about: "every (i, j) from {0..=N*N, 2^16, 2^63, MAX/N, MAX/N+1, MAX-1, MAX}^2, read (Index) and write (IndexMut), all three sizes, on a matrix of pairwise distinct terms: in range both layouts resolve to model[i][j]; out of range (no such element) the access must not depend on the layout - both panic and leave the value untouched, or both resolve to the same abstract element",
+            kind: Kind::Index { total: edge::index_bounds_total(), quick: 1_000_000, thorough: 1_000_000, f: edge::index_bounds },
+        },
+        Check {
+            name: "display-flags",
+            about: "Display under 30 format specs (precision, width, fill/alignment, +, -, #, 0, run-time w$ / p$ / .*) on f64 / f32 (IEEE specials, 2^+-60 magnitudes, integers at the limits), i32 / i64 / u8 (limits, 2^k+-1), distinct strings and a flag-recording element, sizes 2-4: row-major text == col-major text == '( m00 .. )' with each element formatted on its own under the same spec",
+            kind: Kind::Tape { len: 160, quick: 60_000, thorough: 3_000_000, f: edge::display_flags },
+        },
+        Check {
+            name: "numeric-edges",
+            about: "as_ (to i32, u8, i64, u64, f32, f64) and numcast (Some/None as a whole) on f64 matrices of IEEE specials / integers next to the i32, i64, 2^24, 2^53 bounds and on i64 matrices next to the limits, per element at the same (i,j) in both layouts; transposed, layout conversion, nested arrays, diagonal and indexing move specials bit for bit",
+            kind: Kind::Tape { len: 400, quick: 40_000, thorough: 1_500_000, f: edge::numeric_edges },
         },
         Check {
             name: "numeric-i32",
@@ -426,11 +483,15 @@ pub fn property() -> Property {
     ];
     Property {
         id: "C03",
-        rule: "a case is a generated program: start size in {2,3,4}, 0-12 steps chosen from 24 operations with generated arguments; elements are pairwise distinct opaque terms, so no matrix is ever symmetric and any (i,j)/(j,i) confusion is visible; non-trivial = at least 2 steps (numeric check: >= 3 non-zero entries and A != A^T); distinct = distinct consumed tape prefix",
+        rule: "a case is a generated program: start size in {2,3,4}, 0-12 steps chosen from 26 operations with generated arguments; elements are pairwise distinct opaque terms, so no matrix is ever symmetric and any (i,j)/(j,i) confusion is visible; non-trivial = at least 2 steps (numeric check: >= 3 non-zero entries and A != A^T; index-bounds: at least one of i, j is outside 0..N; display-flags: the spec is not the plain one, the text differs from the plain text - a dropped flag shows - and differs from the text of the transpose; numeric-edges: >= 2 special / near-limit elements and neither matrix is bitwise symmetric); distinct = distinct consumed tape prefix (index-bounds: distinct index)",
         assumptions: &[
             "rustc and the proptest runner/shrinker are trusted",
             "the public rows/cols fields are the ground truth: row-major rows.x is row 0, column-major cols.x is column 0",
             "Display format taken from the doc comment: '( m00 .. m0j\\n  .. )' with single spaces",
+            "Display under a non-default format spec: 'this format doesn't depend on the storage layout' is asserted as such (row-major text == col-major text); in addition each mij is taken to be the element formatted under the caller's spec (precision, width, fill, sign, #, 0 apply to every element, the separators are never padded), which is what both layouts do on the pinned tree",
+            "an index pair (i, j) with i >= N or j >= N denotes no element: the docs do not say what happens, so a panic is NOT demanded; only that Index / IndexMut behave the same in both layouts (both panic and leave the value untouched, or both resolve to the same abstract element). usize is assumed to be 64 bits wide for the huge index candidates",
+            "as_ is the per-element `as` cast and numcast the per-element scalar NumCast (oracles use the scalar operations, never the matrix ones); NaN payloads are not compared, every NaN counts as equal to every other",
+            "not asserted: the order in which map / map2 / apply call the closure, the association order of trace() (so no trace on values that can overflow or round), Debug output (derived, shows the storage)",
         ],
         checks,
         max_discard_frac: 0.05,
